@@ -51,12 +51,15 @@ Definition s_add (l : list pubkey) (i : nat) (p : pubkey) : add_res :=
 Inductive op :=
 | OAdd (v dst i : nat) (p : pubkey)
 | OPub (v i : nat)
-| OIdx (v : nat) (p : pubkey).
+| OIdx (v : nat) (p : pubkey)
+| ODup (v : nat).              (* a state is copied with its context (state.CopyState + epc.Clone): a new
+                                  variable holding the SAME handle *)
 
 Inductive obs :=
 | VAdd (same : bool)            (* returned handle is the receiver itself / a fresh handle *)
 | VPub (o : option pubkey)
 | VIdx (o : option nat)
+| VDup
 | VNoHandle.                    (* no such handle variable: the op is skipped *)
 Definition out := outcome obs.  (* Err = AddValidator returned an error *)
 
@@ -95,6 +98,11 @@ Definition s_step (s : sstate) (o : op) : sstate * out :=
       match nth_error (svars s) v with
       | None => (s, Ok VNoHandle)
       | Some c => (s, Ok (VIdx (s_index (cell s c) p)))
+      end
+  | ODup v =>
+      match nth_error (svars s) v with
+      | None => (s, Ok VNoHandle)
+      | Some c => (mkS (cells s) (svars s ++ [c]), Ok VDup)
       end
   | OAdd v dst i p =>
       match nth_error (svars s) v with
